@@ -77,6 +77,9 @@ def gen_items(rng, banks, isa):
             if rng.random() < 0.08:
                 a = b["addr"] - 1 if b["addr"] < 0 else max(0, b["addr"] - 1)
             items.append(("addr", ("int", a, None, "0x%x" % a) if rng.random() < 0.5 and a >= 0 else num(a)))
+        elif r < 0.95 and nlabels > 0 and rng.random() < 0.3:
+            # a nested label: never padded by #labelalign, so it must itself sit on an address boundary
+            items.append(("label", "s%d" % len(items), 1))
         elif r < 0.95:
             items.append(("label", "L%d" % nlabels, 0))
             nlabels += 1
